@@ -43,7 +43,11 @@ def configs(draw):
          "test_under_no_grad": draw(st.booleans()),
          # what is handed to fit/test: the library's DataLoader, or any sized iterable of batches (a plain list whose
          # batches differ in size - the last one short, as with drop_last=False loaders)
-         "loader_kind": draw(st.sampled_from(["DataLoader", "DataLoader", "list_unequal"]))}
+         "loader_kind": draw(st.sampled_from(["DataLoader", "DataLoader", "list_unequal"])),
+         # the same compiled Trainer is fitted a second time (other epoch count, validation loader swapped in/out)
+         "refit": draw(st.sampled_from([None, None, 1, 2])),
+         # before test(): the root says eval but a mode-dependent child was switched back to training on its own
+         "child_train_before_test": draw(st.booleans())}
     return c
 
 
@@ -311,8 +315,39 @@ def check_fit(c, rec):
         calls = cb_calls[name]
         if flag and (len(calls) != n_exp or not all(a and b for a, b in calls)):
             raise Violation("callbacks", f"on_{name}_epoch called {len(calls)} times (expected {n_exp}) or with wrong arguments; {ctx}")
+    # ---- a second fit() on the same compiled Trainer: its history describes that call only ---------------
+    if c.get("refit") and E > 0:
+        E2 = c["refit"]
+        val2 = None if val_loader is not None else make_loader(2)
+        events.clear()
+        try:
+            with contextlib.redirect_stdout(io.StringIO()):
+                h2 = trainer.fit(train_loader, E2, val2)
+        except Exception as e:  # noqa: BLE001
+            raise Violation("fit_raised", f"a second fit() raised {type(e).__name__}: {e}; {ctx}")
+        rec.tag("second_fit_on_same_trainer")
+        n2 = len([e for e in events if e["e"] == "step"])
+        if n2 != E2 * nb:
+            raise Violation("step_count", f"second fit: {n2} optimizer steps for {E2}*{nb}; {ctx}")
+        want2 = {"loss"} | ({"accuracy"} if evaluator and with_acc else set()) | ({"disagree"} if custom else set())
+        if val2 is not None:
+            want2 |= {"val_" + k for k in want2}
+        if set(h2.keys()) != want2:
+            raise Violation("history_keys", f"second fit ({'with' if val2 is not None else 'without'} validation loader): history "
+                                            f"keys {sorted(h2.keys())}, expected {sorted(want2)}; {ctx}", region="refit")
+        for k, v in h2.items():
+            if len(v) != E2:
+                raise Violation("history_length", f"second fit: history[{k!r}] has {len(v)} entries for {E2} epochs; {ctx}",
+                                region="refit")
     # ---- test() --------------------------------------------------------------------------------------
     if c["test"]:
+        if c.get("child_train_before_test"):
+            model.eval()
+            for m_ in model.submodules():
+                if isinstance(m_, (nn.BatchNorm1d, nn.Dropout)):
+                    m_.train()
+                    rec.tag("child_in_training_mode_before_test")
+                    break
         events.clear()
         test_loader = make_loader(2)
         before = snapshot()
